@@ -1,6 +1,7 @@
 package world
 
 import (
+	"encoding/json"
 	"errors"
 	"fmt"
 	"io"
@@ -369,6 +370,24 @@ func checkC06(w *World, st core.Status, r *RunResult) []Violation {
 						add("http-status-code/"+strconv.Itoa(p.Canned.Status), fmt.Sprintf("code %v, want %v (derived from HTTP %d)", ce.Code(), want, p.Canned.Status))
 					}
 				}
+				if proto == PConnect && p.Kind == KUnary && p.Canned.Status != 200 && !p.byz.httpOnly {
+					// no valid protocol-level error can be read from this response
+					// (the body fails before its end, or is not a Connect error):
+					// the code derives from the HTTP status
+					body := p.Canned.Body
+					unreadable := p.Canned.EndErr != nil && p.Canned.EndErr != io.EOF
+					if enc := p.Canned.Header.Get("Content-Encoding"); !unreadable && enc == "gzip" {
+						if d, err := gunzipBytes(body, 1<<20); err == nil {
+							body = d
+						}
+					}
+					if want, ok := documentedHTTP[p.Canned.Status]; ok && (unreadable || !jsonObject(body)) && w.Sc.Clients[p.Client].ReadMax == 0 {
+						r.Probes["http_status_mapping_checked"]++
+						if ce.Code() != want {
+							add("http-status-code/"+strconv.Itoa(p.Canned.Status), fmt.Sprintf("code %v, want %v (derived from HTTP %d; the response carries no readable valid error)", ce.Code(), want, p.Canned.Status))
+						}
+					}
+				}
 				if p.Canned.Status != 200 && proto != PConnect {
 					if want, ok := documentedHTTP[p.Canned.Status]; ok {
 						r.Probes["http_status_mapping_checked"]++
@@ -407,4 +426,12 @@ func clip(b []byte, n int) string {
 		return string(b[:n]) + "..."
 	}
 	return string(b)
+}
+
+// jsonObject: is the body a JSON object at all? (What the library makes of
+// odd but parseable error objects - unknown code names, code_17 - is not
+// pinned by the statement.)
+func jsonObject(b []byte) bool {
+	var m map[string]json.RawMessage
+	return json.Unmarshal(b, &m) == nil && m != nil
 }
